@@ -682,7 +682,14 @@ def commute_case(rng, tier):
         a = gen.leaf(1, reuse=False)
         b = rng.choice([gen.num(np_=False), gen.vec(k, np_=False), gen.vec(k, np_=True), gen.arr(k)])
     op = rng.choice(["mul", "add"])
-    e = ["bin", op, None, a, b] if rng.random() < 0.5 else ["bin", op, None, b, a]
+    if rng.random() < 0.4:          # numpy spelling; tuples / lists are not ufunc operands
+        for x in (a, b):
+            if x[0] == "vec":
+                x[1] = True
+        op, arg = "uf2", {"mul": "multiply", "add": "add"}[op]
+    else:
+        arg = None
+    e = ["bin", op, arg, a, b] if rng.random() < 0.5 else ["bin", op, arg, b, a]
     return dict(kind="commute", regime=regime, meshes=meshes, fields=gen.fields, expr=e, expect="accept", cfg=cfg)
 
 
@@ -826,6 +833,17 @@ def snapshot(f):
             int(f.nvdim), f.unit, repr(f.mesh), id(f.mesh), id(f.array), id(f.valid))
 
 
+def root_alg(e):
+    """add / sub / mul / div when the root is that operator or its numpy spelling"""
+    if e[0] != "bin":
+        return None
+    if e[1] in ("add", "sub", "mul", "div"):
+        return e[1]
+    if e[1] == "uf2":
+        return {"add": "add", "subtract": "sub", "multiply": "mul", "divide": "div"}.get(e[2])
+    return None
+
+
 def mesh_close(a, b):
     try:
         return bool(a.allclose(b))
@@ -915,29 +933,57 @@ def run_case(c):
                     rec["oracle"].append("result-is-operand")
             elif np.shares_memory(r.array, f.array) or np.shares_memory(r.valid, f.valid):
                 rec["oracle"].append("result-aliases-operand")
-        # commutativity of the root operator
-        if e[0] == "bin" and e[1] in ("add", "mul") and c["kind"] in ("commute", "expr"):
-            e2 = ["bin", e[1], e[2], e[4], e[3]]
-            st2, r2 = attempt(lambda: ev_impl(e2, leaves, n))
-            if st2 != "ok" or not isinstance(r2, df.Field):
-                rec["oracle"].append("commutative-rejected")
-            else:
-                # complex products may be fused differently in the two orders: values up to rounding
-                same_vals = r.array.shape == r2.array.shape and bool(np.all(
-                    np.abs(r.array.astype(complex) - r2.array.astype(complex)) <= 1e-9 * ctx.scale))
-                if not (same_vals and np.array_equal(r.valid, r2.valid)
-                        and r.mesh == r2.mesh and r.nvdim == r2.nvdim):
-                    rec["oracle"].append("commutative-values")
-                if vec_labels(r) != vec_labels(r2):
-                    rec["oracle"].append("commutative-labels")
-                    st_a, fa = attempt(lambda: ev_impl(e[3], leaves, n))
-                    st_b, fb = attempt(lambda: ev_impl(e[4], leaves, n))
-                    # known: two fields with the same component count but different labels / mapping
-                    # (the result takes the left operand's)
-                    if (isinstance(fa, df.Field) and isinstance(fb, df.Field) and fa.nvdim == fb.nvdim
-                            and vec_labels(fa) != vec_labels(fb)):
-                        rec["tags"].append(KNOWN_COMM)
-                obs["swapped_labels"] = js(vec_labels(r2))
+        # commutativity of the root + / * in both spellings (operators and np.add / np.multiply), and
+        # "the result is labelled like the operand that has the result's component count"
+        root = root_alg(e)
+        if root is not None and c["kind"] in ("commute", "expr"):
+            st_a, fa = attempt(lambda: ev_impl(e[3], leaves, n))
+            st_b, fb = attempt(lambda: ev_impl(e[4], leaves, n))
+            both_fields = isinstance(fa, df.Field) and isinstance(fb, df.Field)
+            cands = [x for x in (fa, fb) if isinstance(x, df.Field) and x.nvdim == r.nvdim]
+            if cands and vec_labels(r) not in [vec_labels(x) for x in cands]:
+                rec["oracle"].append("result-labels-not-operands")
+            if root in ("add", "mul"):
+                ufname = {"add": "add", "mul": "multiply"}[root]
+                uf_ok = not any(isinstance(x, (tuple, list)) for x in (fa, fb))   # not ufunc operand types
+                forms = [("swap-op", ["bin", root, None, e[4], e[3]], True)]
+                if uf_ok:
+                    forms += [("uf", ["bin", "uf2", ufname, e[3], e[4]], False),
+                              ("swap-uf", ["bin", "uf2", ufname, e[4], e[3]], True)]
+                if e[1] == "uf2":
+                    forms.append(("op", ["bin", root, None, e[3], e[4]], False))
+                swapped_labels = {}
+                for name, e2, is_swap in forms:
+                    if e2 == e:
+                        continue
+                    st2, r2 = attempt(lambda: ev_impl(e2, leaves, n))
+                    if st2 != "ok" or not isinstance(r2, df.Field):
+                        rec["oracle"].append("commutative-rejected" if is_swap else "spelling-rejected")
+                        continue
+                    # complex products may be fused differently in the two orders: values up to rounding
+                    same_vals = r.array.shape == r2.array.shape and bool(np.all(
+                        np.abs(r.array.astype(complex) - r2.array.astype(complex)) <= 1e-9 * ctx.scale))
+                    if not (same_vals and np.array_equal(r.valid, r2.valid)
+                            and r.mesh == r2.mesh and r.nvdim == r2.nvdim):
+                        rec["oracle"].append("commutative-values" if is_swap else "spelling-values")
+                    swapped_labels[name] = js(vec_labels(r2))
+                    if vec_labels(r) != vec_labels(r2):
+                        # known: two fields with the same component count but different labels / mapping
+                        # (the result takes the labels of the first such operand)
+                        if (is_swap and both_fields and fa.nvdim == fb.nvdim
+                                and vec_labels(fa) != vec_labels(fb)):
+                            rec["oracle"].append("commutative-labels")
+                            rec["tags"].append(KNOWN_COMM)
+                        elif is_swap:
+                            rec["oracle"].append("commutative-labels-" + ("ufunc" if "uf" in name or e[1] == "uf2"
+                                                                          else "operator"))
+                        else:
+                            rec["oracle"].append("spelling-labels")
+                obs["swapped_labels"] = swapped_labels
+        elif e[0] == "un" and e[1] in ("neg", "abs", "real", "imag", "conj", "cabs", "phase", "uf1"):
+            st_a, fa = attempt(lambda: ev_impl(e[3], leaves, n))
+            if isinstance(fa, df.Field) and fa.nvdim == r.nvdim and vec_labels(r) != vec_labels(fa):
+                rec["oracle"].append("result-labels-not-operands")
         if c["kind"] == "stackcomp":
             f0 = leaves[e_leaf(e)]
             if not (np.array_equal(r.array, field_dtype(f0.array)) and np.array_equal(r.valid, f0.valid)
